@@ -4,10 +4,13 @@
    alongside on short cases; the "chk" line fails when the heap program gets
    stuck, answers differently, no longer reads back as the functional tree /
    bucket, or has an inconsistent parent / prev link.
-   header:  avl <cap> | ht <cap> <table_size> <id|zero|low|mul|def> | trie <cap>
-   avl ops: ins k v | find k | rem k            -> result / "t <pre-order dump>" / "chk ..."
-   ht ops : put k v | find k | rem k | dump     -> result / "chk ok n=<count>"
-   trie   : ins <hex> v | find <hex> | rem <hex> | dump    -> one result line
+   header:  avl <cap> [cmp] | ht <cap> <table_size> <id|zero|low|mul|def|defb> [cmp] | trie <cap>
+            (cmp = magnitude of the comparator's result: not visible in the model)
+   avl ops: ins k v | find k | rem k [fk fv]    -> result / ["own a b"] / "t <pre-order dump>" / "chk ..."
+            insq k v | remq k [fk fv] -> result / ["own a b"] only;  check -> "t ..." / "chk ..."
+   ht ops : put k v | find k | rem k [fk fv] | clear [fk fv] | dump -> result / ["own a b"] / "chk ok n=<count>"
+   trie   : ins <hex> v | find <hex> | rem <hex> [f] | dump -> one result line (+ "own a" after rem)
+   fk / fv / f: the free callback is passed (1, default) or NULL (0); own: what went through the callbacks
    (the node-pool capacity is ignored by the model: allocation is not modelled) *)
 
 let zcmp a b = if Z.ltb a b then -1 else if Z.ltb b a then 1 else 0
@@ -49,6 +52,12 @@ let hex_of_bytes (l : z list) : string =
 let bytes_of_string (s : string) : z list =
   List.init (String.length s) (fun i -> z_of_int (Char.code s.[i]))
 
+let flag w = w <> "0"
+let own2 (a, b) = print_endline ("own " ^ string_of_bool01 a ^ " " ^ string_of_bool01 b)
+(* decimal string of the key with bit 7 set in every other byte (kind defb) *)
+let hi_bytes (s : string) : z list =
+  List.init (String.length s) (fun i -> z_of_int (if i mod 2 = 0 then Char.code s.[i] lor 0x80 else Char.code s.[i]))
+
 let ht_count (t : ht) = List.fold_left (fun a b -> a + List.length b) 0 t.ht_buckets
 
 let rec trie_dump (prefix : z list) (t : trie) (acc : (z list * z) list ref) =
@@ -83,15 +92,24 @@ let handle (lines : string list) : unit =
          | ["find"; k] ->
            let r = avl_find (z_of_string k) !t in
            hstep (Find (z_of_string k)) (RFind r); opt_line "find" r; print_avl !t !hs
-         | ["rem"; k] ->
-           let (t', ok) = avl_remove (z_of_string k) !t in
+         | ["insq"; k; v] ->
+           let (t', ok) = avl_insert (z_of_string k) (z_of_string v) !t in
+           t := t'; hstep (Ins (z_of_string k, z_of_string v)) (RIns ok);
+           print_endline ("ins " ^ string_of_bool01 ok)
+         | ("rem" | "remq" as w) :: k :: fl ->
+           let (fk, fv) = (match fl with [a; b] -> (flag a, flag b) | _ -> (true, true)) in
+           let (t', (r, o)) = avl_step_cb !t (OpF (Rem (z_of_string k), fk, fv)) in
+           let ok = (match r with RRem b -> b | _ -> false) in
            t := t'; hstep (Rem (z_of_string k)) (RRem ok);
-           print_endline ("rem " ^ string_of_bool01 ok); print_avl !t !hs
+           print_endline ("rem " ^ string_of_bool01 ok); own2 o;
+           if w = "rem" then print_avl !t !hs
+         | ["check"] -> print_avl !t !hs
          | _ -> print_endline "?") ops
      | "ht" :: _ :: ts :: kind :: _ ->
        print_endline "init ok";
        let hash = match kind with
          | "id" -> hash_id | "zero" -> hash_zero | "low" -> hash_low | "mul" -> hash_mul
+         | "defb" -> (fun k -> str_hash (hi_bytes (string_of_z k)))
          | _ -> (fun k -> str_hash (bytes_of_string (string_of_z k))) in
        let t = ref (ht_init (z_of_string ts)) in
        let small = List.length ops <= heap_limit && int_of_z !t.ht_size <= 64 in
@@ -122,10 +140,18 @@ let handle (lines : string list) : unit =
          | ["find"; k] ->
            let r = ht_find hash !t (z_of_string k) in
            hstep (Find (z_of_string k)) (RFind r); opt_line "find" r; chk ()
-         | ["rem"; k] ->
-           let (t', ok) = ht_remove hash !t (z_of_string k) in
+         | "rem" :: k :: fl ->
+           let (fk, fv) = (match fl with [a; b] -> (flag a, flag b) | _ -> (true, true)) in
+           let (t', (r, o)) = ht_step_cb hash !t (OpF (Rem (z_of_string k), fk, fv)) in
+           let ok = (match r with RRem b -> b | _ -> false) in
            t := t'; hstep (Rem (z_of_string k)) (RRem ok);
-           print_endline ("rem " ^ string_of_bool01 ok); chk ()
+           print_endline ("rem " ^ string_of_bool01 ok); own2 o; chk ()
+         | "clear" :: fl ->
+           let (fk, fv) = (match fl with [a; b] -> (flag a, flag b) | _ -> (true, true)) in
+           let ((t', n), (nk, nv)) = ht_clear_cb fk fv !t in
+           t := t'; hs := None;      (* the heap-level model has no clear *)
+           print_endline ("clear " ^ string_of_z n);
+           print_endline ("own " ^ string_of_z nk ^ " " ^ string_of_z nv); chk ()
          | ["hash"; k] ->
            (* value of the table's hash function on this key (default string hash for kind def) *)
            print_endline ("hash " ^ string_of_z (hash (z_of_string k))); chk ()
@@ -147,9 +173,12 @@ let handle (lines : string list) : unit =
          match words l with
          | ["ins"; k; v] -> t := trie_insert !t (bytes_of_hex k) (z_of_string v); print_endline "ins 1"
          | ["find"; k] -> opt_line "find" (trie_lookup !t (bytes_of_hex k))
-         | ["rem"; k] ->
-           let (t', ok) = trie_remove !t (bytes_of_hex k) in
-           t := t'; print_endline ("rem " ^ string_of_bool01 ok)
+         | "rem" :: k :: fl ->
+           let f = (match fl with [a] -> flag a | _ -> true) in
+           let (t', (r, (_, rv))) = trie_step_cb !t (OpF (Rem (bytes_of_hex k), true, f)) in
+           let ok = (match r with RRem b -> b | _ -> false) in
+           t := t'; print_endline ("rem " ^ string_of_bool01 ok);
+           print_endline ("own " ^ string_of_bool01 rv)
          | ["dump"] ->
            let acc = ref [] in
            (match !t with TNode (_, ch) ->
